@@ -801,3 +801,325 @@ def o_c10(spec, obs):
         if not ok:
             return True, "schedule %s parsed as %r which matches no record with that id" % (sid, s)
     return False, "ok"
+
+
+# ------------------------------------------------------------------------------- life cycles on the real loop (C17 / C18 / C07)
+import socket as _socket  # noqa: E402
+
+
+def _free_udp_ports(n):
+    socks, ports = [], []
+    for _ in range(n):
+        s = _socket.socket(_socket.AF_INET, _socket.SOCK_DGRAM)
+        s.bind(("0.0.0.0", 0))
+        socks.append(s)
+        ports.append(s.getsockname()[1])
+    for s in socks:
+        s.close()
+    return ports
+
+
+def _bindable(port):
+    s = _socket.socket(_socket.AF_INET, _socket.SOCK_DGRAM)
+    try:
+        s.bind(("0.0.0.0", port))
+        return True
+    except OSError:
+        return False
+    finally:
+        s.close()
+
+
+def _type1_datagram():
+    d = bytearray(165)
+    d[0:2] = b"\xfe\xf0"
+    d[18:21] = b"\xaa\xbb\xcc"
+    d[40] = 0x18
+    d[42:46] = b"Boil"
+    d[74:76] = bytes.fromhex("030b")
+    d[76:80] = bytes([192, 168, 1, 33])
+    d[80:86] = bytes.fromhex("12a1a21abc1a")
+    d[133] = 1
+    d[135:137] = (2600).to_bytes(2, "little")
+    d[147:151] = (3000).to_bytes(4, "little")
+    d[155:159] = (7200).to_bytes(4, "little")
+    return bytes(d)
+
+
+@kind("bridge_seq")
+def k_bridge_seq(spec):
+    from aioswitcher.bridge import SwitcherBridge
+
+    n = int(spec["ports"].split(":")[1])
+    real_ports = _free_udp_ports(n)
+    model_ports = []
+    for step in spec["trace"]:
+        if step[1] is not None and step[1] not in model_ports:
+            model_ports.append(step[1])
+    # configured ports in model order: the harness uses a fixed list, map by position
+    cfg = spec.get("model_ports") or sorted(set(model_ports)) or []
+    steps_out = []
+
+    async def go():
+        log = []
+        br = SwitcherBridge(lambda dev: log.append(dev), list(real_ports))
+        outsiders = {}
+        mapping = {}
+
+        def real(p):
+            if p not in mapping:
+                mapping[p] = real_ports[len(mapping)]
+            return mapping[p]
+
+        # keep the model's port order: ports are named in the order of the harness list
+        for i, p in enumerate(spec.get("model_port_list", [])):
+            mapping[p] = real_ports[i]
+        client = _socket.socket(_socket.AF_INET, _socket.SOCK_DGRAM)
+        owned = set()
+        for kindn, port, _exc in spec["trace"]:
+            o = {"action": kindn, "port": port, "raised": None}
+            before_owned = set(owned)
+            nlog = len(log)
+            try:
+                if kindn == "start":
+                    await br.start()
+                elif kindn == "enter":
+                    await br.__aenter__()
+                elif kindn == "stop":
+                    await br.stop()
+                elif kindn == "exit":
+                    await br.__aexit__(None, None, None)
+                elif kindn == "send":
+                    client.sendto(_type1_datagram(), ("127.0.0.1", real(port)))
+                    await asyncio.sleep(0.05)
+                elif kindn == "occupy":
+                    s = _socket.socket(_socket.AF_INET, _socket.SOCK_DGRAM)
+                    s.bind(("0.0.0.0", real(port)))
+                    outsiders[port] = s
+                elif kindn == "release":
+                    outsiders.pop(port).close()
+                elif kindn == "cycle":
+                    await asyncio.sleep(0.01)
+            except Exception as e:  # noqa: BLE001
+                o["raised"] = type(e).__name__
+            await asyncio.sleep(0)
+            await asyncio.sleep(0.01)
+            # which configured ports are held by the bridge now: not bindable and not held by an outsider
+            held_by_outsider = {real(p) for p in outsiders}
+            owned = {p for p in real_ports if p not in held_by_outsider and not _bindable(p)}
+            o["bridge_listening"] = sorted(real_ports.index(p) for p in owned)
+            o["new_listening"] = sorted(real_ports.index(p) for p in owned - before_owned)
+            o["is_running"] = br.is_running
+            o["callbacks"] = len(log) - nlog
+            steps_out.append(o)
+        client.close()
+        for s in outsiders.values():
+            s.close()
+        await br.stop()
+
+    asyncio.run(go())
+    return {"steps": steps_out, "nports": n}
+
+
+@oracle("C17")
+def o_c17(spec, obs):
+    n = obs["nports"]
+    listening = set()
+    for o in obs["steps"]:
+        k = o["action"]
+        now = set(o["bridge_listening"])
+        if k in ("start", "enter"):
+            if o["raised"] is None:
+                if len(now) != n or o["is_running"] is not True:
+                    return True, "start returned: listening on %d of %d ports, is_running=%r" % (len(now), n, o["is_running"])
+            elif o["new_listening"]:
+                return True, "start raised %s and left %d port(s) listening that were not before (is_running=%r)" % (o["raised"], len(o["new_listening"]), o["is_running"])
+        if k in ("stop", "exit"):
+            if o["raised"] or now or o["is_running"] is not False:
+                return True, "stop: raised=%r, still listening on %d ports, is_running=%r" % (o["raised"], len(now), o["is_running"])
+        if k == "send":
+            pass
+        if o["raised"] is None and k in ("start", "stop", "enter", "exit") and bool(o["is_running"]) != (len(now) == n):
+            return True, "is_running=%r while listening on %d of %d ports" % (o["is_running"], len(now), n)
+        listening = now
+    return False, "ok"
+
+
+@kind("api_life")
+def k_api_life(spec):
+    api_mod = importlib.import_module("aioswitcher.api")
+    port = 9957 if spec["api"] == 1 else 10000
+    out = {"steps": []}
+
+    async def go():
+        state = {"mode": "ok", "conns": [], "eof": []}
+
+        async def handle(reader, writer):
+            idx = len(state["conns"])
+            state["conns"].append(writer)
+            state["eof"].append(False)
+            nframe = 0
+            try:
+                while True:
+                    data = await reader.read(2048)
+                    if not data:
+                        state["eof"][idx] = True
+                        break
+                    nframe += 1
+                    login = data[4:7] in (b"\x02\x32\xa1", b"\x03\x05\xa6")
+                    if login:
+                        writer.write(bytes(20))
+                    else:
+                        writer.write(bytes(107) if state["mode"] == "ok" else bytes(5))
+                    await writer.drain()
+            finally:
+                writer.close()
+
+        server = None
+
+        async def ensure_server(up):
+            nonlocal server
+            if up and server is None:
+                server = await asyncio.start_server(handle, "127.0.0.1", port)
+            if not up and server is not None:
+                server.close()
+                await server.wait_closed()
+                server = None
+
+        cls = api_mod.SwitcherType1Api if spec["api"] == 1 else api_mod.SwitcherType2Api
+        api = cls("127.0.0.1", "aabbcc", "18")
+        for kindn, _exc in spec["trace"]:
+            o = {"action": kindn, "raised": None}
+            nconn = len(state["conns"])
+            inside = []
+            try:
+                if kindn == "connect":
+                    await ensure_server(True)
+                    await api.connect()
+                elif kindn == "refused_connect":
+                    await ensure_server(False)
+                    await api.connect()
+                elif kindn in ("op", "failing_op"):
+                    state["mode"] = "ok" if kindn == "op" else "garbage"
+                    if spec["api"] == 1:
+                        await api.get_state()
+                    else:
+                        await api.get_shutter_state()
+                elif kindn == "disconnect":
+                    await api.disconnect()
+                else:
+                    await ensure_server(kindn != "ctx_refused")
+                    async with api as a_:
+                        inside.append([a_ is api, api.connected])
+                        if kindn == "ctx_body_raises":
+                            raise KeyError("body")
+            except Exception as e:  # noqa: BLE001
+                o["raised"] = type(e).__name__
+            await asyncio.sleep(0.05)
+            o["connected"] = api.connected
+            o["new_conns"] = len(state["conns"]) - nconn
+            o["open_conns"] = sum(1 for e in state["eof"] if not e)
+            o["inside"] = inside
+            out["steps"].append(o)
+        await api.disconnect()
+        await ensure_server(False)
+
+    asyncio.run(go())
+    return out
+
+
+@oracle("C18")
+def o_c18(spec, obs):
+    connected = False
+    for o in obs["steps"]:
+        k = o["action"]
+        if k == "connect":
+            if o["raised"]:
+                return True, "connect raised %s" % o["raised"]
+            connected = True
+        elif k == "refused_connect":
+            if o["raised"] != "ConnectionRefusedError" or o["new_conns"]:
+                return True, "refused connect: raised=%r new connections=%d" % (o["raised"], o["new_conns"])
+        elif k == "op":
+            if o["raised"]:
+                return True, "operation raised %s" % o["raised"]
+        elif k == "failing_op":
+            if o["raised"] != "RuntimeError":
+                return True, "failing operation raised %r" % o["raised"]
+        elif k == "disconnect":
+            if o["raised"]:
+                return True, "disconnect raised %s" % o["raised"]
+            connected = False
+        else:
+            if k == "ctx_refused":
+                if o["raised"] != "ConnectionRefusedError":
+                    return True, "refused context raised %r" % o["raised"]
+            else:
+                if k == "ctx_ok" and o["raised"]:
+                    return True, "context raised %s" % o["raised"]
+                if k == "ctx_body_raises" and o["raised"] != "KeyError":
+                    return True, "body exception became %r" % o["raised"]
+                if o["inside"] != [[True, True]]:
+                    return True, "inside context: %r" % o["inside"]
+            connected = False
+        if o["connected"] is not connected:
+            return True, "after %s: connected=%r expected %r" % (k, o["connected"], connected)
+        if o["open_conns"] != (1 if connected else 0):
+            return True, "after %s: device sees %d open connections, expected %d" % (k, o["open_conns"], 1 if connected else 0)
+    return False, "ok"
+
+
+@kind("bridge_dgrams")
+def k_bridge_dgrams(spec):
+    from aioswitcher.bridge import SwitcherBridge
+
+    ports = _free_udp_ports(spec["nports"])
+    out = {"devices": [], "loop_errors": 0}
+
+    async def go():
+        log = []
+        rb = list(spec["raise"])
+
+        def on_device(d):
+            k = len(log)
+            log.append(d)
+            if k < len(rb) and rb[k]:
+                raise RuntimeError("user callback failed")
+
+        loop = asyncio.get_running_loop()
+        errs = []
+        loop.set_exception_handler(lambda lp, ctx: errs.append(ctx))
+        br = SwitcherBridge(on_device, ports)
+        await br.start()
+        client = _socket.socket(_socket.AF_INET, _socket.SOCK_DGRAM)
+        with _warnings.catch_warnings(record=True):
+            _warnings.simplefilter("always")
+            for g in spec["dgrams"]:
+                client.sendto(bytes.fromhex(g["data"]), ("127.0.0.1", ports[g["port"]]))
+                await asyncio.sleep(0.03)
+        client.close()
+        await br.stop()
+        await asyncio.sleep(0.01)
+        out["devices"] = [norm(d) for d in log]
+        out["loop_errors"] = len(errs)
+
+    asyncio.run(go())
+    return out
+
+
+@oracle("C07")
+def o_c07(spec, obs):
+    exp = []
+    for g in spec["dgrams"]:
+        d = bytes.fromhex(g["data"])
+        fam = g.get("family")
+        if fam and len(d) == SB.FAMILY_LEN[fam] and SB.wellformed(O, d, fam, SB.decode(O, d, fam)):
+            exp.append(expected_device_concrete(d, fam))
+    got = obs["devices"]
+    if len(got) != len(exp):
+        return True, "%d callbacks for %d valid broadcasts" % (len(got), len(exp))
+    for i, (g, e) in enumerate(zip(got, exp)):
+        for k, v in e.items():
+            if g.get(k) != v:
+                return True, "delivery %d: field %s = %r, expected %r (order or content)" % (i, k, g.get(k), v)
+    return False, "ok"
